@@ -81,6 +81,7 @@ namespace
     const uint64_t DANGLING = ~uint64_t(0) - 1;    // an rvalue accessor returned a reference into the wrapper it was called on
     const uint64_t MISPLACED = ~uint64_t(0) - 2;   // an accessor designates another object than the member accessor does
     const uint64_t BADFLAG = ~uint64_t(0) - 3;     // a flag accessor reads false or designates another flag
+    const uint64_t MOVED_OUT = ~uint64_t(0) - 4;   // a read left the wrapper's own value moved-from
 
     inline uint64_t value_of(const P& p) { return p.id; }
     inline uint64_t value_of(double d) { return static_cast<uint64_t>(d < 0 ? -d : d); }
@@ -139,8 +140,20 @@ namespace
         {
             if (form == 0) return this->w->get().id;
             if (form == 1) return static_cast<const W&>(*this->w).get().id;
+            if (form == 3)
+            {
+                // implicit conversion of the (lvalue) wrapper to its closure type: a read, it must leave the wrapper's value intact
+                Suspend s;
+                const P& y = static_cast<typename W::closure_type>(*this->w);
+                uint64_t id = y.id;
+                P copy = static_cast<typename W::closure_type>(*this->w);
+                if (copy.id != id) return MISPLACED;
+                if (static_cast<const W&>(*this->w).get().moved) return MOVED_OUT;
+                return id;
+            }
             return after_death(static_cast<const W&>(*this->w), [](W&& x) -> decltype(auto) { return std::move(x).get(); }, this->value_addr);
         }
+        int forms() const override { return 4; }
         void write(uint64_t v, int form) override { do_write(v, form, std::integral_constant<bool, !is_const>()); }
         void do_write(uint64_t v, int form, std::true_type) { Suspend s; P val(v); if (form == 0) *this->w = val; else if (form == 1) this->w->get() = val; else *this->w = std::move(val); }
         void do_write(uint64_t, int, std::false_type) {}
@@ -490,6 +503,7 @@ namespace
                 if (got == DANGLING) viol("lifetime", "rvalue-accessor-dangling", who + "accessor form " + std::to_string(form) + " applied to a temporary wrapper returned a reference into that wrapper (dangling once the temporary is gone)");
                 if (got == MISPLACED) viol("model", "accessor-alias", who + "accessor form " + std::to_string(form) + " designates another object than the member accessor / the caller's flag");
                 if (got == BADFLAG) viol("model", "flag", who + "a flag accessor (form " + std::to_string(form) + ") does not read true");
+                if (got == MOVED_OUT) viol("model", "read-moved-out", who + "reading the wrapper through accessor form " + std::to_string(form) + " moved its value out");
                 if (got != want) viol("model", "read", who + "reads " + std::to_string(static_cast<long long>(got)) + " through accessor form " + std::to_string(form) + ", expected " + std::to_string(want) + (x.ref >= 0 ? " (value of its referent)" : " (its own value)"));
             }
             const void* a = x.addr();
@@ -820,8 +834,9 @@ namespace
         void op_cross_closure(const Step& st)
         {
             static const char* const vn[] = {"own_from_proxy_lvalue", "own_from_proxy_moved", "own_from_proxy_temporary", "construct_own_from_proxy_temporary", "construct_own_from_proxy_moved",
-                                             "proxy_from_own_lvalue", "proxy_from_own_moved", "own_from_proxy_const", "swap_same_referent_different_flags"};
-            unsigned v = static_cast<unsigned>(st.d % 9);
+                                             "proxy_from_own_lvalue", "proxy_from_own_moved", "own_from_proxy_const", "swap_same_referent_different_flags",
+                                             "own_from_lvalue_value_rvalue_flag", "own_from_lvalue_value_lvalue_flag"};
+            unsigned v = static_cast<unsigned>(st.d % 11);
             int r = static_cast<int>(st.c % 3);
             Scope sc(*this, st, "cross_closure", vn[v]);
             Referent& f = *refs[r];
@@ -829,6 +844,20 @@ namespace
             using Proxy = xtl::xoptional<P&, bool&>;
             uint64_t id = fresh();
             uint64_t before = val[r];
+            if (v >= 9)
+            {
+                // an owning optional (explicit value closure) constructed from the caller's lvalue value copies it - with an
+                // rvalue flag as well as with an lvalue flag
+                using Own2 = xtl::xoptional<P, bool>;
+                bool fl = true;
+                uint64_t copies = registry().copies;
+                if (v == 9) { Own2 o(f.obj, true); if (o.value().id != before) viol("model", "read", "an owning optional built from an lvalue holds another value"); }
+                else { Own2 o(f.obj, fl); if (o.value().id != before) viol("model", "read", "an owning optional built from an lvalue holds another value"); }
+                if (registry().copies == copies) viol("model", "own", "an owning optional built from the caller's lvalue did not copy it");
+                SIM_PROBE("cross_closure_kind_assignment");
+                check_all();       // the referent must not have been moved from
+                return;
+            }
             if (v == 8)
             {
                 // two proxies onto the same value whose flags are different objects holding different values: swap exchanges the flags
